@@ -137,6 +137,21 @@ pub fn dispatch(f: &[&str]) -> Option<String> {
             Err(e) => errkind(&e),
         },
         "is_empty" => b(sys::is_empty(a(1))),
+        // the environment is the process environment (set by the runner, one process per environment)
+        "expand" => res_path(sys::expand(a(2))),
+        "abs_m" => {
+            let vfs = Memfs::new();
+            let cwd = a(2);
+            vfs.mkdir_p(&cwd).unwrap();
+            vfs.set_cwd(&cwd).unwrap();
+            res_path(vfs.abs(a(3)))
+        },
+        "abs_s" => {
+            let cwd = a(2);
+            std::fs::create_dir_all(&cwd).unwrap();
+            std::env::set_current_dir(&cwd).unwrap();
+            res_path(Stdfs::new().abs(a(3)))
+        },
         _ => return None,
     })
 }
